@@ -16,11 +16,16 @@
 (*            rk: "none" | "bits" | "int" | "exc" | "mixed",               *)
 (*            rw: nbits / bit length of the largest int seen,              *)
 (*            rc: "" | "width" | "other", role: "" | "hi"]                 *)
-(*   k = sig(w, st) field(a, w, st) num(limbs) bconst(w, limbs) cast(n, a) *)
+(*   k = sig(ty) field(a, name) num(limbs) bconst(w, limbs) cast(n, a)     *)
 (*       unop(op, a) binop(op, a, b) shift(op, a, b) cmp(op, a, b)         *)
 (*       ifexp(c, a, b) concat(args) zext|sext|trunc(n, a) reduce(a)       *)
-(*       bit(a, i) elem(n, w, st, i) slice(a, lo, hi) loopvar(f) tmp(v)    *)
+(*       bit(a, i) elem(n, ty, i) slice(a, lo, hi) loopvar(f) tmp(v)       *)
+(*       idx(a, i) sinst(ty, args)                                         *)
 (*       tmpdef assign(t, v) if(c) for(s, e, st) opq(w, ex)                *)
+(* `ty` is the shape of the declared Python type (BitStruct.tla: leaf /    *)
+(* struct / list) as the harness reads it from the bitstruct class's field *)
+(* declarations; the widths of structs, of their fields at every depth and *)
+(* of (partially indexed) list fields are computed here from the shape.    *)
 (* `opq` is a node the model does not interpret (its declared static type  *)
 (* is taken as given; only static = run-time is required of it).           *)
 (***************************************************************************)
@@ -44,15 +49,15 @@ NEvents(t) == IF t.kind = "block" THEN Len(t.nodes) + 1 ELSE 1
 
 ExprKinds == {"sig", "field", "num", "bconst", "cast", "unop", "binop", "shift", "cmp", "ifexp",
               "concat", "zext", "sext", "trunc", "reduce", "bit", "elem", "slice", "loopvar",
-              "tmp", "opq"}
+              "tmp", "opq", "idx", "sinst"}
 StmtKinds == {"tmpdef", "assign", "if", "for"}
 
 Kids(n) ==
     CASE n.k \in {"field", "cast", "unop", "zext", "sext", "trunc", "reduce"} -> <<n.a>>
       [] n.k \in {"binop", "shift", "cmp"} -> <<n.a, n.b>>
       [] n.k = "ifexp"   -> <<n.c, n.a, n.b>>
-      [] n.k = "concat"  -> n.args
-      [] n.k = "bit"     -> <<n.a, n.i>>
+      [] n.k \in {"concat", "sinst"} -> n.args
+      [] n.k \in {"bit", "idx"} -> <<n.a, n.i>>
       [] n.k = "elem"    -> <<n.i>>
       [] n.k = "slice"   -> <<n.a, n.lo, n.hi>>
       [] n.k = "loopvar" -> <<n.f>>
@@ -66,6 +71,7 @@ WellFormed(n, pos) ==
     /\ n.k \in ExprKinds \cup StmtKinds
     /\ \A j \in 1 .. Len(Kids(n)) : Kids(n)[j] >= 1 /\ Kids(n)[j] < pos
     /\ (n.k \in {"num", "bconst"} => R!LimbsOK(n.limbs))
+    /\ (n.k \in {"sig", "elem", "sinst"} => R!BS!WellFormed(n.ty))
 
 \* an expression one of whose operands is outside the model is outside the model
 KidsModelled(n, a) == \A j \in 1 .. Len(Kids(n)) : a[Kids(n)[j]].w > 0
@@ -73,9 +79,11 @@ KidsModelled(n, a) == \A j \in 1 .. Len(Kids(n)) : a[Kids(n)[j]].w > 0
 NodeInfo(n, a) ==
     IF n.k \in (ExprKinds \ {"loopvar"}) /\ ~KidsModelled(n, a) THEN R!Unsup
     ELSE
-    CASE n.k = "sig"     -> R!SigInfo(n.w, n.st)
+    CASE n.k = "sig"     -> R!SigInfoT(n.ty)
       [] n.k = "opq"     -> R!Info(n.w, n.ex, FALSE, 0, FALSE)
-      [] n.k = "field"   -> R!FieldInfo(a[n.a], n.w, n.st)
+      [] n.k = "field"   -> R!FieldInfo(a[n.a], n.name)
+      [] n.k = "idx"     -> R!ItemInfo(a[n.a], a[n.i])
+      [] n.k = "sinst"   -> R!StructInstInfo(n.ty, [j \in 1 .. Len(n.args) |-> a[n.args[j]]])
       [] n.k = "num"     -> R!NumInfoL(n.limbs)
       [] n.k = "bconst"  -> R!BConstInfoL(n.w, n.limbs)
       [] n.k = "cast"    -> R!CastInfo(n.n, a[n.a])
@@ -90,7 +98,7 @@ NodeInfo(n, a) ==
       [] n.k = "trunc"   -> R!TruncInfo(n.n, a[n.a])
       [] n.k = "reduce"  -> R!ReduceInfo(a[n.a])
       [] n.k = "bit"     -> R!BitInfo(a[n.a], a[n.i])
-      [] n.k = "elem"    -> R!ElemInfo(n.n, n.w, n.st, a[n.i])
+      [] n.k = "elem"    -> R!ElemInfo(n.n, n.ty, a[n.i])
       [] n.k = "slice"   -> R!SliceInfo(a[n.a], a[n.lo], a[n.hi])
       [] n.k = "loopvar" -> (IF a[n.f].w > 0 THEN R!LoopVarInfo(a[n.f]) ELSE R!Unsup)
       [] n.k = "tmp"     -> R!TmpInfo(a[n.v])
